@@ -52,7 +52,9 @@ def main():
     except Exception:
         tb = traceback.format_exc()
         ctx.notes.append("harness exception: " + tb[-3000:])
-        ctx.violation("harness", "the correspondence harness crashed: " + tb[-600:],
+        last = tb.strip().splitlines()[-1] if tb.strip() else ""
+        sys.stderr.write(tb)
+        ctx.violation("harness", "the correspondence harness crashed: " + last + " || " + tb[-500:],
                       {"input": "corr:%s/harness-crash" % prop, "traceback": tb[-3000:]}, no_failing_input=True)
     if broken and not ctx.violations:
         # a proof obligation broke and the search found no failing input on the real code
